@@ -322,6 +322,7 @@ func (r *Reader) readXRefStream(xref map[uint32]*xRefEntry, s *scanner) (Dict, R
 	if err != nil {
 		return nil, 0, err
 	}
+	defer decoded.Close()
 	err = decodeXRefStream(xref, decoded, w, ss)
 	if err != nil {
 		return nil, 0, err
